@@ -24,6 +24,9 @@ type Engine struct {
 	allFuncs map[*ssa.Function]bool
 	byName   map[string]*ssa.Function // fn.String() -> fn
 	errors   []string
+	effVC    *VC
+	effMemo  map[*ssa.Function]*effSet
+	addrTaken map[*ssa.Function]bool
 }
 
 // Obligation is one proof goal: asserts[0:Prefix] /\ Guard |= Goal.
@@ -49,6 +52,7 @@ type Val struct {
 	Tuple []Val          // tuple-typed value
 	Fn    *ssa.Function  // statically known function value (closure or bound method)
 	Bind  []Val          // captured values / receiver of Fn
+	PureFn bool          // function value assumed to modify nothing when called
 	Loc   bool           // spec only: T is a ref to a struct value of type Ty stored in memory
 	St    *State         // spec only: state for Loc reads
 }
@@ -120,13 +124,16 @@ type VC struct {
 	recovered   Term
 	topFrame    *Frame
 	lastRet     map[string][]Val
+	fieldRange  map[string][2]string
+	rangeSeen   map[string]bool
+	nPanicEdges int
 }
 
 func newVC(eng *Engine, fn *ssa.Function, con *Contract, known map[string]string, order []string) *VC {
 	vc := &VC{eng: eng, fn: fn, con: con, declSet: map[string]bool{}, heapSort: map[string]string{},
 		heapKnown: map[string]bool{}, strConsts: map[string]string{}, typeIDs: map[string]int{},
 		notes: map[string]bool{}, unsup: map[string]bool{}, oblNames: map[string]int{}, callN: map[string]int{},
-		ghostSeen: map[string]bool{}, fieldCodes: map[string]int{}, statics: map[string]int{}, lastRet: map[string][]Val{}}
+		ghostSeen: map[string]bool{}, fieldCodes: map[string]int{}, statics: map[string]int{}, lastRet: map[string][]Val{}, fieldRange: map[string][2]string{}, rangeSeen: map[string]bool{}}
 	if con != nil && con.Strings == "smt" {
 		vc.smtStr = true
 	}
@@ -462,7 +469,26 @@ func (vc *VC) heapVar(name, sort string) string {
 func (vc *VC) fieldVar(st types.Type, i int) string {
 	u := st.Underlying().(*types.Struct)
 	name := "H_" + vc.structKey(st) + "_" + sanitize(u.Field(i).Name())
+	if !vc.rangeSeen[name] {
+		vc.rangeSeen[name] = true
+		// assumed value range of the field (assume-range), if any
+		if n, ok := types.Unalias(st).(*types.Named); ok && n.Obj().Pkg() != nil {
+			for _, r := range vc.eng.cs.Ranges {
+				if r.PkgPath == n.Obj().Pkg().Path() && r.Sel == n.Obj().Name()+"."+u.Field(i).Name() {
+					vc.fieldRange[name] = [2]string{r.Lo, r.Hi}
+					vc.note("assumed range of " + r.Sel + ": [" + r.Lo + ", " + r.Hi + ") (" + r.Pos + ")")
+				}
+			}
+		}
+	}
 	return vc.heapVar(name, "(Array Ref "+vc.sortOf(u.Field(i).Type())+")")
+}
+
+// rangeFact: the assumed range of a value read from heap variable hv.
+func (vc *VC) rangeFact(hv string, val Term) {
+	if r, ok := vc.fieldRange[hv]; ok {
+		vc.fact(val, "(and (<= "+smtInt(r[0])+" "+val+") (< "+val+" "+smtInt(r[1])+"))")
+	}
 }
 
 func (vc *VC) memVar(t types.Type) string {
